@@ -188,3 +188,118 @@ def partial_eval_dispatch(fn, attr_text, value, want):
 
     run(fn.body)
     return env
+
+
+# ---------------------------------------------------------------------------------------------- array expressions with numpy's fixed-width integer semantics
+class NArr:
+    """1-d array of exact values with a numpy-like dtype: 'int64' values wrap modulo 2**64 (two's complement), 'float64' values are kept exact (Fraction)"""
+    def __init__(self, vals, dtype):
+        self.vals, self.dtype = list(vals), dtype
+
+    @staticmethod
+    def wrap(v):
+        v = int(v) & ((1 << 64) - 1)
+        return v - (1 << 64) if v >= (1 << 63) else v
+
+
+def npfold(e, env):
+    """fold an expression that builds a 1-d coefficient array.  env maps source text (e.g. 'self.order') to Fractions.  Raises NotConstant outside the fragment."""
+    t = unparse(e).replace(" ", "")
+    if t in env:
+        return env[t]
+    if isinstance(e, ast.Constant) and isinstance(e.value, (int, float)) and not isinstance(e.value, bool):
+        return ("int", e.value) if isinstance(e.value, int) else ("float", F(repr(e.value)))
+    if isinstance(e, ast.Name):
+        if e.id in env:
+            return env[e.id]
+        raise NotConstant(e.id)
+    if isinstance(e, ast.BinOp):
+        a, b = npfold(e.left, env), npfold(e.right, env)
+        return _nbin(type(e.op), a, b, e)
+    if isinstance(e, ast.UnaryOp) and isinstance(e.op, ast.USub):
+        return _nbin(ast.Sub, ("int", 0), npfold(e.operand, env), e)
+    if isinstance(e, ast.ListComp) and len(e.generators) == 1 and not e.generators[0].ifs and isinstance(e.generators[0].target, ast.Name):
+        it = npfold(e.generators[0].iter, env)
+        if not isinstance(it, NArr):
+            raise NotConstant(unparse(e))
+        out = []
+        for v in it.vals:
+            out.append(npfold(e.elt, {**env, e.generators[0].target.id: ("int", v)}))
+        return _mk(out)
+    if isinstance(e, (ast.List, ast.Tuple)):
+        return _mk([npfold(x, env) for x in e.elts])
+    if isinstance(e, ast.Call):
+        fn = unparse(e.func)
+        args = [npfold(a, env) for a in e.args]
+        if fn in ("range", "np.arange", "numpy.arange") and 1 <= len(args) <= 2 and all(a[0] == "int" for a in args if not isinstance(a, NArr)):
+            lo, hi = (0, args[0][1]) if len(args) == 1 else (args[0][1], args[1][1])
+            return NArr(list(range(int(lo), int(hi))), "int64")
+        if fn in ("np.array", "np.asarray", "numpy.array") and args:
+            return args[0] if isinstance(args[0], NArr) else _mk([args[0]])
+        if fn in ("factorial", "math.factorial", "scipy.special.factorial", "special.factorial") and len(args) == 1:
+            a = args[0]
+            if isinstance(a, NArr):
+                return NArr([F(factorial(int(v))) for v in a.vals], "float64")      # scipy's factorial returns floats (exact below 2**53 ... the comparison is with exact values)
+            return ("float", F(factorial(int(a[1]))))
+        if fn in ("np.maximum", "np.minimum") and len(args) == 2:
+            f_ = max if fn.endswith("maximum") else min
+            a, b = args
+            if isinstance(a, NArr) and not isinstance(b, NArr):
+                return NArr([f_(v, b[1]) for v in a.vals], a.dtype if b[0] == "int" else "float64")
+            if isinstance(b, NArr) and not isinstance(a, NArr):
+                return NArr([f_(v, a[1]) for v in b.vals], b.dtype if a[0] == "int" else "float64")
+        if fn in ("np.cumprod", "np.cumsum") and len(args) == 1 and isinstance(args[0], NArr):
+            out, acc = [], (1 if fn.endswith("prod") else 0)
+            for v in args[0].vals:
+                acc = acc * v if fn.endswith("prod") else acc + v
+                if args[0].dtype == "int64":
+                    acc = NArr.wrap(acc)
+                out.append(acc)
+            return NArr(out, args[0].dtype)
+        if fn in ("np.ones", "np.zeros") and len(args) == 1 and args[0][0] == "int":
+            return NArr([F(1 if fn.endswith("ones") else 0)] * int(args[0][1]), "float64")
+        if fn in ("float", "np.float64") and len(args) == 1 and not isinstance(args[0], NArr):
+            return ("float", F(args[0][1]))
+        if isinstance(e.func, ast.Attribute) and e.func.attr == "astype" and e.args:
+            base = npfold(e.func.value, env)
+            tt = unparse(e.args[0])
+            if isinstance(base, NArr):
+                return NArr([F(v) for v in base.vals], "float64") if "float" in tt else base
+    raise NotConstant(unparse(e))
+
+
+def _mk(items):
+    if any(isinstance(x, NArr) for x in items):
+        raise NotConstant("nested arrays")
+    if all(x[0] == "int" for x in items):
+        return NArr([x[1] for x in items], "int64")
+    return NArr([F(x[1]) for x in items], "float64")
+
+
+def _nbin(op, a, b, node):
+    def el(x, i):
+        return (x.vals[i], x.dtype) if isinstance(x, NArr) else (x[1], "int64" if x[0] == "int" else "float64")
+    n = len(a.vals) if isinstance(a, NArr) else (len(b.vals) if isinstance(b, NArr) else None)
+    if isinstance(a, NArr) and isinstance(b, NArr) and len(a.vals) != len(b.vals):
+        raise NotConstant("shape mismatch")
+    out = []
+    for i in range(n if n is not None else 1):
+        (x, tx), (y, ty) = el(a, i), el(b, i)
+        if op is ast.Div:
+            if y == 0:
+                raise NotConstant("division by zero")
+            v, tv = F(x) / F(y), "float64"
+        elif op is ast.Pow:
+            v, tv = (F(x) ** int(y), tx if ty == "int64" and y >= 0 else "float64")
+        else:
+            v = {ast.Add: x + y, ast.Sub: x - y, ast.Mult: x * y}.get(op)
+            if v is None:
+                raise NotConstant(unparse(node))
+            tv = "int64" if tx == ty == "int64" else "float64"
+        if tv == "int64":
+            v = NArr.wrap(v)
+        out.append((v, tv))
+    if n is None:
+        v, tv = out[0]
+        return ("int" if tv == "int64" else "float", v)
+    return NArr([v for v, _ in out], "int64" if all(t == "int64" for _, t in out) else "float64")
